@@ -65,7 +65,7 @@ func OracleC01(run *common.Run, id string, res *Result) int {
 		run.OracleFail(id, sig, msg, rp)
 	}
 	if res.Hang {
-		fail("hang", "Copy did not return within 40s")
+		fail("hang", "Copy did not return within 20s (re-confirmed on a fresh run)")
 		return fails
 	}
 	if res.Err != nil {
@@ -248,7 +248,7 @@ func OracleC04(run *common.Run, id string, res *Result) int {
 		run.OracleFail(id, sig, msg, rp)
 	}
 	if res.Hang {
-		fail("hang", "Copy did not return within 40s")
+		fail("hang", "Copy did not return within 20s (re-confirmed on a fresh run)")
 		return fails
 	}
 	if res.SrcMax > res.Keff {
